@@ -33,6 +33,7 @@ fn sched_cap() -> usize {
 }
 
 struct Exec {
+    meta: Vec<(String, String)>,
     flat: Flat,
     mag: f64,
     ratios: bool,
@@ -62,7 +63,8 @@ fn exec_cfg(text: &str, both: bool, out: &mut Out) -> Result<Exec, String> {
         }
     }
     let log = cteepbd::verif_hooks::take();
-    Ok(Exec { flat, mag, ratios, ncomp: c.data.len(), orders: group_orders(&log) })
+    let meta = c.meta.iter().map(|m| (m.key.clone(), m.value.clone())).collect();
+    Ok(Exec { meta, flat, mag, ratios, ncomp: c.data.len(), orders: group_orders(&log) })
 }
 
 fn exec(text: &str, out: &mut Out) -> Result<Exec, String> {
@@ -103,6 +105,10 @@ fn fact(n: usize) -> usize {
 
 fn compare(base: &Exec, other: &Exec, what: &str, feats: &[&str], out: &mut Out) {
     out.compared += 1;
+    // the metadata (reference area, k_exp, location used by the program) are part of what is declared
+    if base.meta != other.meta {
+        out.viol("same_metadata", feats, what, format!("{:?}", other.meta), format!("{:?}", base.meta));
+    }
     let ratios = base.ratios && other.ratios;
     let d = cmp::cmp_flat_m(&base.flat, &other.flat, subj::tol(base.mag), 1e-5, base.mag, other.mag, &|p| p.starts_with("rer") && !ratios, &|_, x| x);
     if !d.is_empty() {
@@ -271,7 +277,7 @@ impl StateCheck for C10 {
             ("decoration:blank_lines", format!("\n\n{}\n\n", body.replace('\n', "\n\n"))),
             ("decoration:comment_lines", format!("# comentario\n{}# fin", body.replace('\n', "\n# x, CONSUMO, ILU, ELECTRICIDAD, 99\n"))),
             ("decoration:trailing_comments", body.lines().map(|l| if l.contains('#') || l.trim().is_empty() { format!("{l}\n") } else { format!("{l} # nota, con comas, 1, 2\n") }).collect()),
-            ("decoration:whitespace", body.lines().map(|l| format!("  \t{} \t \n", l.replace(", ", " ,\t "))).collect()),
+            ("decoration:whitespace", body.lines().map(|l| if l.trim_start().starts_with('#') { format!("  \t{l} \t \n") } else { format!("  \t{} \t \n", l.replace(", ", " ,\t ")) }).collect()),
             ("decoration:crlf", body.replace('\n', "\r\n")),
             ("decoration:bom+header+crlf", format!("\u{feff}vector,tipo,src_dst\r\n{}", body.replace('\n', "\r\n"))),
         ];
@@ -391,6 +397,7 @@ fn aux_env_letters() -> Vec<Letter> {
     al.push(Letter::many(vec![u(Some(5), "ACS", "TERMOSOLAR", &k(&[1, 3])), p(Some(5), "TERMOSOLAR", &k(&[1, 3]))]));
     al.push(Letter::one(u(Some(6), "ACS", "TERMOSOLAR", &k(&[1, 1]))));
     al.push(Letter::one(a(None, &k(&[1, 1]))));
+    al.push(Letter::many(vec![Line::M { key: "CTE_AREAREF", val: "50.5" }, Line::M { key: "CTE_LOCALIZACION", val: "CANARIAS" }, Line::Raw("#CTE_kexp: 0.5".into())]));
     al.push(Letter::one(u(None, "ILU", "ELECTRICIDAD", &k(&[3, 3]))));
     al.push(Letter::one(u(None, "ACS", "EAMBIENTE", &k(&[1, 0]))));
     al.push(Letter::one(p(None, "EL_INSITU", &k(&[1, 3]))));
